@@ -118,7 +118,8 @@ Definition check_day (z' : Z) : bool :=
   let z := z' - 719468 in
   let '(y, m, d) := civil_from_days z in
   valid_date y m d && (days_from_civil y m d =? z) && (0 <=? y) && (y <=? 400)
-  && ((z' <? 306) || (1 <=? y)) && ((146036 <? z') || (y <=? 399)).
+  && ((z' <? 306) || (1 <=? y)) && ((146036 <? z') || (y <=? 399))
+  && (days_from_civil y 1 1 <=? z) && (z <? days_from_civil (y + 1) 1 1).
 
 Lemma check_era_days : forall_range2 check_day 0 400 366 = true.
 Proof. vm_cast_no_check (eq_refl true). Qed.
@@ -126,15 +127,16 @@ Proof. vm_cast_no_check (eq_refl true). Qed.
 Lemma era_day_facts z' : 0 <= z' < 146097 ->
   let '(y, m, d) := civil_from_days (z' - 719468) in
   valid_date y m d = true /\ days_from_civil y m d = z' - 719468 /\ 0 <= y <= 400 /\
-  (306 <= z' -> 1 <= y) /\ (z' <= 146036 -> y <= 399).
+  (306 <= z' -> 1 <= y) /\ (z' <= 146036 -> y <= 399) /\
+  days_from_civil y 1 1 <= z' - 719468 < days_from_civil (y + 1) 1 1.
 Proof.
   intro Hz. pose proof (forall_range2_spec _ _ _ _ check_era_days z' ltac:(cbn; lia)) as H.
   unfold check_day in H. cbv zeta in H.
   destruct (civil_from_days (z' - 719468)) as [[y m] d].
   rewrite !andb_true_iff, !orb_true_iff in H.
-  destruct H as [[[[[H1 H2] H3] H4] H5] H6].
-  apply Z.eqb_eq in H2. apply Z.leb_le in H3. apply Z.leb_le in H4.
-  split; [exact H1|]. split; [exact H2|]. split; [lia|]. split.
+  destruct H as [[[[[[[H1 H2] H3] H4] H5] H6] H7] H8].
+  apply Z.eqb_eq in H2. apply Z.leb_le in H3. apply Z.leb_le in H4. apply Z.leb_le in H7. apply Z.ltb_lt in H8.
+  split; [exact H1|]. split; [exact H2|]. split; [lia|]. split; [|split; [|split; assumption]].
   - intro Hlo. destruct H5 as [H5|H5]; [apply Z.ltb_lt in H5; lia|apply Z.leb_le in H5; exact H5].
   - intro Hhi. destruct H6 as [H6|H6]; [apply Z.ltb_lt in H6; lia|apply Z.leb_le in H6; exact H6].
 Qed.
@@ -167,7 +169,8 @@ Lemma civil_from_days_facts z :
   let z' := (z + 719468) mod 146097 in
   let '(y, m, d) := civil_from_days z in
   valid_date y m d = true /\ days_from_civil y m d = z /\
-  400 * k <= y <= 400 * k + 400 /\ (306 <= z' -> 400 * k + 1 <= y) /\ (z' <= 146036 -> y <= 400 * k + 399).
+  400 * k <= y <= 400 * k + 400 /\ (306 <= z' -> 400 * k + 1 <= y) /\ (z' <= 146036 -> y <= 400 * k + 399) /\
+  days_from_civil y 1 1 <= z < days_from_civil (y + 1) 1 1.
 Proof.
   intros k z'.
   assert (Hz : z = (z' - 719468) + 146097 * k).
@@ -178,9 +181,11 @@ Proof.
   replace (civil_from_days z) with (civil_from_days (z' - 719468 + 146097 * k)) by (rewrite <- Hz; reflexivity).
   rewrite civil_from_days_period.
   destruct (civil_from_days (z' - 719468)) as [[y m] d].
-  destruct H as [H1 [H2 [H3 [H4 H5]]]].
-  rewrite valid_date_period, days_from_civil_period.
-  split; [exact H1|]. split; [lia|]. split; [lia|]. split; intro; [specialize (H4 ltac:(assumption))|specialize (H5 ltac:(assumption))]; lia.
+  destruct H as [H1 [H2 [H3 [H4 [H5 H6]]]]].
+  rewrite valid_date_period, !days_from_civil_period.
+  replace (y + 400 * k + 1) with (y + 1 + 400 * k) by lia. rewrite days_from_civil_period.
+  split; [exact H1|]. split; [lia|]. split; [lia|]. split; [|split; [|lia]]; intro;
+    [specialize (H4 ltac:(assumption))|specialize (H5 ltac:(assumption))]; lia.
 Qed.
 
 Theorem days_from_civil_from_days z :
@@ -210,7 +215,7 @@ Lemma civil_from_days_year_range z : -719162 <= z <= 2932896 ->
 Proof.
   intro Hz. pose proof (civil_from_days_facts z) as H. cbv zeta in H.
   destruct (civil_from_days z) as [[y m] d].
-  destruct H as [_ [_ [H3 [H4 H5]]]].
+  destruct H as [_ [_ [H3 [H4 [H5 _]]]]].
   set (k := (z + 719468) / 146097) in *. set (z' := (z + 719468) mod 146097) in *.
   assert (Hdm : z + 719468 = 146097 * k + z') by (apply Z.div_mod; lia).
   assert (Hz' : 0 <= z' < 146097) by (apply Z.mod_pos_bound; lia).
@@ -219,6 +224,45 @@ Proof.
   - assert (306 <= z') by lia. specialize (H4 ltac:(assumption)). lia.
   - assert (z' <= 146036) by lia. specialize (H5 ltac:(assumption)). lia.
   - lia.
+Qed.
+
+(* ---------- order: the year of a day vs. January 1st ---------- *)
+
+Lemma jan1_step_check :
+  forall_range (fun y => let w := days_from_civil (y + 1) 1 1 - days_from_civil y 1 1 in (w =? 365) || (w =? 366)) 0 400 = true.
+Proof. vm_cast_no_check (eq_refl true). Qed.
+
+Lemma jan1_step y : days_from_civil y 1 1 < days_from_civil (y + 1) 1 1.
+Proof.
+  set (k := y / 400). set (y0 := y mod 400).
+  assert (Hy : y = y0 + 400 * k) by (unfold y0, k; pose proof (Z.div_mod y 400 ltac:(lia)); lia).
+  assert (Hy0 : 0 <= y0 < 400) by (apply Z.mod_pos_bound; lia).
+  clearbody k y0. subst y.
+  replace (y0 + 400 * k + 1) with (y0 + 1 + 400 * k) by lia. rewrite !days_from_civil_period.
+  pose proof (forall_range_spec _ _ _ jan1_step_check y0 ltac:(cbn; lia)) as H. cbv beta zeta in H.
+  apply orb_true_iff in H. rewrite !Z.eqb_eq in H. lia.
+Qed.
+
+Lemma jan1_mono y1 y2 : y1 <= y2 -> days_from_civil y1 1 1 <= days_from_civil y2 1 1.
+Proof.
+  intro H.
+  assert (G : forall n : nat, days_from_civil y1 1 1 <= days_from_civil (y1 + Z.of_nat n) 1 1).
+  { induction n as [|n IH]; [rewrite Z.add_0_r; lia|].
+    replace (y1 + Z.of_nat (S n)) with (y1 + Z.of_nat n + 1) by lia.
+    pose proof (jan1_step (y1 + Z.of_nat n)). lia. }
+  specialize (G (Z.to_nat (y2 - y1))). rewrite Z2Nat.id in G by lia.
+  replace (y1 + (y2 - y1)) with y2 in G by lia. exact G.
+Qed.
+
+(* the day z falls in a year before y iff it precedes January 1st of y *)
+Theorem civil_year_lt_iff z y :
+  (let '(y', _, _) := civil_from_days z in y' < y) <-> z < days_from_civil y 1 1.
+Proof.
+  pose proof (civil_from_days_facts z) as H. cbv zeta in H.
+  destruct (civil_from_days z) as [[y' m] d]. destruct H as [_ [_ [_ [_ [_ [Hlo Hhi]]]]]].
+  split; intro Hlt.
+  - pose proof (jan1_mono (y' + 1) y ltac:(lia)). lia.
+  - destruct (Z.lt_ge_cases y' y) as [L|G]; [exact L|]. pose proof (jan1_mono y y' G). lia.
 Qed.
 
 (* ---------- timestamps ---------- *)
@@ -269,6 +313,24 @@ Qed.
 
 Lemma year_of_start_of_year y : year_of (start_of_year y) = y.
 Proof. unfold year_of. rewrite ts_date_start_of_year. reflexivity. Qed.
+
+(* a timestamp lies in a year before y iff it is chronologically before January 1st 00:00:00 UTC
+   of y; holds for every timestamp, normalised or not *)
+Theorem year_of_lt_iff t y : year_of t < y <-> ts_compare t (start_of_year y) = Lt.
+Proof.
+  unfold year_of, ts_date. rewrite (civil_year_lt_iff (ts_days t) y).
+  unfold ts_compare, ts_total_nanos, start_of_year, ts_days, ts_unix_secs. cbn [secs nanos].
+  rewrite Z.compare_lt_iff.
+  set (D := days_from_civil y 1 1). set (s := secs t). set (n := nanos t).
+  pose proof (Z.div_mod n 1000000000 ltac:(lia)) as Hn.
+  pose proof (Z.mod_pos_bound n 1000000000 ltac:(lia)) as Hnb.
+  pose proof (Z.div_mod (s + n / 1000000000) 86400 ltac:(lia)) as Hs.
+  pose proof (Z.mod_pos_bound (s + n / 1000000000) 86400 ltac:(lia)) as Hsb.
+  lia.
+Qed.
+
+Corollary year_of_ge_iff t y : y <= year_of t <-> ts_compare t (start_of_year y) <> Lt.
+Proof. rewrite <- year_of_lt_iff. lia. Qed.
 
 (* on normalised timestamps ts_compare is the lexicographic order on (secs, nanos) *)
 Lemma ts_compare_lex a c :
